@@ -159,4 +159,36 @@ exhausts its recursion fuel (the Python: `RecursionError`), the fuel-bounded han
 theorem build_cyclic_extends :
     (runBuild cycL).map pictureOf = .error .recursionError ∧ (generate cycL).toOption.isSome = true := by decide
 
+/-! ## where list-for-list agreement stops (why the general tie speaks of permutations and distinct names) -/
+
+/-- one step with links to the steps `x`, `y`, `x` of three different targets -/
+def orderL : Lang :=
+  { assets := [
+      { name := "A", steps := [{ name := "go", type := "or", reaches := some { overrides := true, exprs := [
+          .collect (.field "b") (.step "x"), .collect (.field "c") (.step "y"), .collect (.field "c") (.step "x")] } }] },
+      { name := "B", steps := [{ name := "x", type := "or" }] },
+      { name := "C", steps := [{ name := "x", type := "or" }, { name := "y", type := "or" }] }],
+    assocs := [{ name := "AB", leftAsset := "A", leftField := "a1", rightAsset := "B", rightField := "b" },
+               { name := "AC", leftAsset := "A", leftField := "a2", rightAsset := "C", rightField := "c" }] }
+
+/-- **the `children` dictionary groups the links of a step by the NAME of the target step**: read back in
+dictionary order the links of `A.go` are `B.x, C.x, C.y`, the hand model lists them in the order of the reaches
+expressions `B.x, C.y, C.x` — the same links, another order; everything else of the picture agrees -/
+theorem link_order_differs :
+    ¬ BuildAgrees orderL 1000 ∧
+    (match pictureOfRun orderL 1000, modelPicture orderL with
+     | .ok p, .ok q => decide (p.links.Perm q.links) && decide ({ p with links := [] } = { q with links := [] })
+     | _, _ => false) = true := by decide
+
+/-- two asset declarations with one name -/
+def dupL : Lang :=
+  { assets := [{ name := "A" }, { name := "B", superAsset := some "A" }, { name := "B", superAsset := some "A" }] }
+
+/-- **duplicate asset names**: the Python finds the FIRST object of a name both times (the first `B` gets `A` as
+super asset twice, the second none), the hand model answers per declaration — the general tie assumes pairwise
+distinct asset names (`SpecOK.names_nodup`; the MAL compiler guarantees them) -/
+theorem duplicate_names_disagree :
+    (pictureOfRun dupL 1000).map (·.assets) = .ok [("A", [], ["B", "B"]), ("B", ["A", "A"], []), ("B", [], [])] ∧
+    (modelPicture dupL).map (·.assets) = .ok [("A", [], ["B", "B"]), ("B", ["A"], []), ("B", ["A"], [])] := by decide
+
 end MalVerif.Py.TieLangType
